@@ -10,6 +10,7 @@ CONSTANTS
   AllowCancel = TRUE
   EarlyExits = FALSE
   MaxConc = 9
+  Spawn = "go"
   Record = TRUE
 SPECIFICATION SimSpec
 INVARIANTS SingleSend ReturnsOnce SuccessMeansQuorum ErrorMeansNoQuorum ErrorIsReal ChannelErrorIsReal
